@@ -411,7 +411,7 @@ class Check:
                                            gen_status={k: v.get('tie') for k, v in (self.gen or {}).get('functions', {}).items() if v.get('tie') != 'translated'})))
         if self.gen is not None and self.gen.get('rc', 0) != 0:
             broken.append(dict(kind='proof', what='translator failed', replay=dict(log=self.gen.get('log'))))
-        for part in ('cachesites', 'rngsites', 'masks', 'imp', 'impr', 'skel', 'fwd', 'hist', 'selecttrans', 'vectrans', 'lamtrans', 'strtrans', 'tables', 'specs'):
+        for part in ('cachesites', 'rngsites', 'masks', 'imp', 'impr', 'skel', 'fwd', 'hist', 'selecttrans', 'vectrans', 'lamtrans', 'lamtrans_img', 'strtrans', 'tables', 'specs'):
             st_ = (self.gen or {}).get(part)
             if isinstance(st_, str) and st_.startswith('failed'):
                 broken.append(dict(kind='proof', what='translator (%s) %s: the generated table is stale' % (part, st_[:300]), replay=dict(part=part, status=st_)))
